@@ -62,6 +62,16 @@ pub fn slice_to_array<const N: usize>(s: &[u8]) -> (r: core::result::Result<[u8;
     match <[u8; N]>::try_from(s) { Ok(a) => Ok(a), Err(_) => Err(TryFromSliceError { _p: () }) }
 }
 
+/// R12c: `Vec::with_capacity(n)`.  Same result as std; the precondition is the
+/// C15 obligation [alloc_proportional]: a capacity taken from input must be
+/// bounded (16 MiB, the codec's max_buffer_size).
+pub fn vec_with_capacity_checked<T>(n: usize) -> (v: Vec<T>)
+    requires n <= 16777216,
+    ensures v@.len() == 0,
+{
+    Vec::with_capacity(n)
+}
+
 // ---- utf-8 --------------------------------------------------------------
 pub uninterp spec fn utf8(s: Seq<char>) -> Seq<u8>;
 pub uninterp spec fn utf8_dec(b: Seq<u8>) -> Option<Seq<char>>;
